@@ -59,7 +59,7 @@ def fresh_per_run_lists(ctx, prop, attrs=("cfiles", "ffiles", "pyfiles")):
                  "Config.__init__ does not bind self.%s to a new empty list: the list of files written is shared "
                  "between runs in one process (--cfiles/--ffiles would name files of earlier runs)" % x,
                  sample={"attribute": x, "rule": "self.%s = [] at the top level of Config.__init__" % x},
-                 confirm=lambda: ctx.monitor("m_purity", "search", 70, ctx.seed))
+                 confirm=lambda: ctx.monitor("m_purity", "search", 70, ctx.seed), shape=True)
     ok = False
     for st in (mwa[0].body if mwa else []):
         if isinstance(st, ast.Assign) and isinstance(st.value, ast.Call) and getattr(st.value.func, "id", "") == "Config" \
@@ -67,4 +67,4 @@ def fresh_per_run_lists(ctx, prop, attrs=("cfiles", "ffiles", "pyfiles")):
             ok = True
     ctx.item("%s/history/main_with_args:new-Config-per-run" % prop, ok,
              "main_with_args does not build a new Config() unconditionally at its top level",
-             confirm=lambda: ctx.monitor("m_purity", "search", 70, ctx.seed))
+             confirm=lambda: ctx.monitor("m_purity", "search", 70, ctx.seed), shape=True)
